@@ -179,7 +179,15 @@ func (ex *Exec) unsupported(format string, a ...interface{}) {
 }
 
 func (ex *Exec) gopanic(msg string) {
-	panic(&goPanic{v: &IfaceV{T: types.Typ[types.String], V: strConst(msg)}, msg: msg})
+	where := ""
+	if n := len(ex.callStack); n > 0 {
+		where = " [in " + ex.callStack[n-1]
+		if n > 1 {
+			where += " <- " + ex.callStack[n-2]
+		}
+		where += "]"
+	}
+	panic(&goPanic{v: &IfaceV{T: types.Typ[types.String], V: strConst(msg)}, msg: msg + where})
 }
 
 // ---------- types ----------
@@ -1213,11 +1221,11 @@ func (ex *Exec) callValue(fv Value, args []Value) Value {
 }
 
 func (ex *Exec) invoke(recv *IfaceV, m *types.Func, args []Value) Value {
-	if recv.T == nil {
-		ex.gopanic("runtime error: invalid memory address or nil pointer dereference")
-	}
 	if r, ok := ex.invokeIntrinsic(recv, m, args); ok {
 		return r
+	}
+	if recv.T == nil {
+		ex.gopanic("runtime error: invalid memory address or nil pointer dereference")
 	}
 	fn := ex.prog.LookupMethod(recv.T, m.Pkg(), m.Name())
 	if fn == nil {
